@@ -24,7 +24,10 @@
 (***************************************************************************)
 EXTENDS Integers, Sequences, FiniteSets, TLC, Json
 
-CONSTANTS Widths      \* ODS widths explored, e.g. {1, 2, 4}
+CONSTANTS Widths,         \* ODS widths explored, e.g. {1, 2, 4}
+          ResetsReceiver  \* TRUE: RangeNamespaceData.ReadFrom forgets the receiver's old proofs (tree with
+                          \* the fix); FALSE: the unfixed code -- a proof survives from an earlier decode into
+                          \* the same value.  FALSE is used only by ShwapContainers_reuse.cfg (sensitivity).
 
 NoProof == [kind |-> "none", s |-> 0, e |-> 0]
 Incl(s, e) == [kind |-> "incl", s |-> s, e |-> e]
@@ -145,6 +148,15 @@ Decode(codec, k, m) ==
                  last  |-> IF Len(m) >= 2 THEN UnPbProof(m[Len(m)].proof) ELSE NoProof]
            ELSE [k |-> k, rows |-> m.rows, first |-> UnPbProof(m.first), last |-> UnPbProof(m.last)]
 
+\* RangeNamespaceData.ReadFrom into a value that already holds a container `prev` (the shrex getter
+\* reuses one buffer across attempts).  The unfixed code assigned First only for row 1 and Last only
+\* for rows > 1, so a one-row answer kept the old last-row proof (and an empty stream kept both).
+DecodeRangeStreamInto(prev, m) ==
+    IF ResetsReceiver THEN Decode("stream", "range", m)
+    ELSE [k |-> "range", rows |-> [i \in 1..Len(m) |-> m[i].n],
+          first |-> IF Len(m) >= 1 THEN UnPbProof(m[1].proof) ELSE prev.first,
+          last  |-> IF Len(m) >= 2 THEN UnPbProof(m[Len(m)].proof) ELSE prev.last]
+
 \* Equality "as a container": a row is the same row whichever half travelled (Row.Shares() rebuilds
 \* the other half by erasure decoding); everything else is plain equality.
 SameContainer(a, b) ==
@@ -192,6 +204,11 @@ RangeWellShaped ==
 StreamProofsOnlyAtEnds ==
     (stage = "encoded" /\ x.k = "range" /\ codec = "stream") =>
         \A i \in 2..(Len(msg) - 1) : ~msg[i].proof.present
+
+\* C18: what a decoder returns depends on the bytes only, not on what the receiver held before
+DecodeIgnoresReceiver ==
+    (stage = "encoded" /\ x.k = "range" /\ codec = "stream") =>
+        \A p \in Ranges(x.w) : DecodeRangeStreamInto(Value(p), msg) = Value(x)
 
 Emit == stage = "decoded" =>
           PrintT(<<"CASE", ToJson([x |-> x, codec |-> codec, value |-> Value(x)])>>)
